@@ -164,6 +164,39 @@ for a, b in itertools.combinations(LOCS[:8], 2):
                 lambda feats=feats: gb_annot(feats, True))
 
 
+def gb_sequence(text, fmt, start, annotated):
+    """GenBank / GenPept: the ORIGIN field returns the symbols and the sequence start that were written"""
+    sq = seq.ProteinSequence(text) if fmt == "gp" else NucleotideSequence(text)
+    f = gb.GenBankFile()
+    gb.set_locus(f, "TEST", len(text), "DNA" if fmt == "gb" else "", False, "UNK", "01-JAN-2000")
+    if annotated:
+        feats = [Feature("gene", [Location(start, start + max(len(text) - 1, 0))], {"gene": "g"})]
+        gb.set_annotated_sequence(f, AnnotatedSequence(Annotation(feats), sq, sequence_start=start))
+    else:
+        gb.set_sequence(f, sq, sequence_start=start)
+    g = gb.GenBankFile.read(io.StringIO(text_of(f)))
+    for src, label in ((g, "re-read file"), (f, "file object")):
+        back = gb.get_sequence(src, format=fmt)
+        if str(back) != text or type(back) is not type(sq):
+            return f"get_sequence({label}, format={fmt!r}) = {str(back)!r} ({type(back).__name__}), wrote {text!r}"
+        if gb.get_raw_sequence(src).upper() != text.upper():
+            return f"get_raw_sequence({label}) = {gb.get_raw_sequence(src)!r}, wrote {text!r}"
+        if annotated:
+            a = gb.get_annotated_sequence(src, format=fmt)
+            if str(a.sequence) != text or a.sequence_start != start:
+                return f"get_annotated_sequence({label}): {str(a.sequence)!r} start {a.sequence_start}, wrote {text!r} start {start}"
+    return None
+
+
+GB_SEQS = [("gb", "ACGTACGTACGT"), ("gb", "ACGTNNRYACGTWSKMBDHV" * 4), ("gb", "A"), ("gb", "ACGT" * 31),
+           ("gp", "MAKVL"), ("gp", "MA*KVL*"), ("gp", "*"), ("gp", "ACDEFGHIKLMNPQRSTVWYBZX*" * 3), ("gp", "M" * 60 + "*"), ("gp", "MK*" * 21)]
+for fmt, text in GB_SEQS:
+    for start in (1, 7, 100):
+        for annotated in (False, True):
+            R.check("GenBank / GenPept sequence round trip", f"genbank sequence ({fmt})", {"format": fmt, "sequence": text[:40], "length": len(text), "start": start, "annotated": annotated},
+                    lambda fmt=fmt, text=text, start=start, annotated=annotated: gb_sequence(text, fmt, start, annotated))
+
+
 def gb_edit(ops):
     """field editing: the parsed view (get_fields / indexing) must match a list model
     and the text after every step"""
